@@ -29,7 +29,7 @@ from props.c14_seq import make_engine
 from happysimulator.components.storage.transaction_manager import IsolationLevel, TransactionManager
 
 KEYS = ("x", "y")
-INIT = {"x": -1, "y": -2}
+INIT = {"x": 0, "y": ""}  # falsy on purpose: a stored 0 / "" is a value, not a miss
 LAT = {"sst_read": 10e-6, "sst_write": 20e-6, "page_read": 10e-6, "page_write": 20e-6,
        "kv_read": 10e-6, "kv_write": 20e-6}
 STORES = {"kv": ("kv",), "lsm": ("lsm", "st2", 1, 2), "btree": ("btree", 3)}
@@ -66,12 +66,21 @@ def interleavings(lens):
 
 
 class Scheduler(Entity):
-    def __init__(self, tm, progs, order, level, rec):
+    def __init__(self, tm, progs, order, level, rec, override=False):
         super().__init__("sched")
         self.tm, self.progs, self.order, self.level, self.rec = tm, progs, order, level, rec
+        self.override = override
 
     def handle_event(self, event):
         return self._run()
+
+    def begin_how(self, i):
+        """How transaction i states its level.  Manager default == level: even transactions pass it to
+        begin(), odd ones rely on the default.  Manager default != level (per-transaction override):
+        even ones use begin(isolation=level), odd ones begin_sync(isolation=level)."""
+        if self.override:
+            return "explicit" if i % 2 == 0 else "sync"
+        return "explicit" if i % 2 == 0 else "default"
 
     def _run(self):
         tm, rec = self.tm, self.rec
@@ -82,8 +91,14 @@ class Scheduler(Entity):
             step = pos[i]
             pos[i] += 1
             if step == 0:
-                txs[i] = yield from tm.begin(self.level)
-                rec["log"].append((i, "begin", None, None))
+                how = self.begin_how(i)
+                if how == "default":
+                    txs[i] = yield from tm.begin()
+                elif how == "sync":
+                    txs[i] = tm.begin_sync(self.level)
+                else:
+                    txs[i] = yield from tm.begin(self.level)
+                rec["log"].append((i, "begin", None, how))
             elif step == len(p) + 1:
                 ok = yield from txs[i].commit()
                 rec["commit"][i] = bool(ok)
@@ -103,13 +118,23 @@ class Scheduler(Entity):
         rec["done"] = True
 
 
+def split_level(level_name):
+    """'LEVEL' -> (LEVEL, LEVEL);  'DEFAULT>LEVEL' -> manager default DEFAULT, every transaction begun
+    with the per-transaction override LEVEL (and judged by LEVEL, its own level)."""
+    if ">" in level_name:
+        d, lv = level_name.split(">")
+        return d, lv
+    return level_name, level_name
+
+
 def execute(store_tag, level_name, progs, order):
+    default, level = split_level(level_name)
     store = make_engine(STORES[store_tag], lat=LAT)
     for k, v in INIT.items():
         store.put_sync(k, v)
-    tm = TransactionManager("tm", store=store, isolation=LEVELS[level_name])
+    tm = TransactionManager("tm", store=store, isolation=LEVELS[default])
     rec = {"reads": [[] for _ in progs], "commit": {}, "commit_order": [], "log": [], "done": False}
-    sch = Scheduler(tm, progs, order, LEVELS[level_name], rec)
+    sch = Scheduler(tm, progs, order, LEVELS[level], rec, override=default != level)
     sim = Simulation(entities=[store, tm, sch])
     sim.schedule(Event(time=Instant(0), event_type="go", target=sch))
     info = run_guarded(sim, max_events=2000, storm=500)
@@ -139,7 +164,16 @@ def serial_ok(progs, rec, perm):
 
 
 def oracle(level_name, progs, rec, store_tag=None):
-    """Returns [(fingerprint-tail, description)]."""
+    """Returns [(fingerprint, description)].  With 'DEFAULT>LEVEL' every transaction is judged by LEVEL,
+    the level it was begun with; the fingerprint gets the shape suffix /per-txn-override."""
+    default, level = split_level(level_name)
+    if default != level:
+        return [(fp + "/per-txn-override", desc + f" [manager default {default}, begin(isolation={level})]")
+                for fp, desc in _oracle(level, progs, rec, store_tag)]
+    return _oracle(level, progs, rec, store_tag)
+
+
+def _oracle(level_name, progs, rec, store_tag=None):
     out = []
     if not rec["done"]:
         return out
